@@ -9,7 +9,8 @@ TIE = ["Nsq.Tie.Gate"]
 PROPS = ["Nsq.Props.C11"]
 
 DENY_CODES = ("E_AUTH_FIRST", "E_AUTH_FAILED", "E_UNAUTHORIZED", "E_AUTH_DISABLED")
-OPS = ("cfg", "http", "https", "conn", "c", "cx", "x")
+OPS = ("cfg", "http", "https", "conn", "c", "cx", "cp", "cb", "cz", "x")
+CMDV = ("c", "cx", "cp", "cb", "cz")
 
 
 def broker_of(line):
@@ -28,10 +29,12 @@ def property_fails_on(prev_impl_broker, op, impl):
     """Given one command and the *implementation's* answer: does the property itself fail?
     (used when model and implementation disagree; the Go-side oracle covers the other clauses)"""
     w = op.split()
-    if w[0] not in ("c", "cx"):
+    if w[0] not in CMDV:
         return None
-    cmd = w[4]
+    cmd = w[5] if w[0] == "cb" else w[4]
     first = impl.split(" close=")[0].split("|")[0] if impl else ""
+    if w[0] == "cb" and w[4] == "0" and first and cmd != "IDENTIFY":
+        return "%s sent in plaintext before the TLS handshake was answered (%s) after it" % (cmd, first)
     code = first.split(":")[0]
     after = broker_of(impl)
     if code in DENY_CODES:
@@ -61,14 +64,18 @@ def history_oracle(ops, impl):
         if w[0] == "x":
             prev_broker = broker_of(i) or prev_broker
             continue
-        if w[0] not in ("c", "cx") or w[1] not in conns:
+        if w[0] not in CMDV or w[1] not in conns:
             continue
-        st, cmd = conns[w[1]], w[4]
+        st, cmd = conns[w[1]], (w[5] if w[0] == "cb" else w[4])
         replies = i.split(" close=")[0]
         m = re.search(r"tls=(\d) st=(\w+) authed=(\d) broker=(\S+)", i)
         if not m:
             continue
         tls, state, authed, broker = m.groups()
+        if w[0] == "cb" and w[4] == "0" and (cfg[1] != "0" or cfg[2] != "-") and cmd != "IDENTIFY":
+            # plaintext_bytes_never_executed: no effect, no answer other than the gate's E_INVALID
+            if replies not in ("", "E_INVALID:fatal") or (prev_broker is not None and content_grew(prev_broker, broker)):
+                out.append(("hist-plaintext:" + cmd, idx, "%s received in plaintext (before the handshake) was executed/answered after it: %s [%s]" % (cmd, replies or "(effect)", o[:200])))
         if cmd == "IDENTIFY" and re.match(r"ident:tls=1:auth=\d\|OK$", replies):
             st["tls"] = True
         if cmd == "AUTH" and replies.startswith("auth:"):
@@ -76,11 +83,11 @@ def history_oracle(ops, impl):
         if cmd == "SUB" and replies == "OK":
             st["sub"] = True
         if tls == "1" and not st["tls"]:
-            out.append(("hist-tls:" + cmd, idx, "TLS flag set without a completed handshake inside an earlier IDENTIFY [%s]" % o[:200]))
+            out.append(("hist-tls", idx, "TLS flag set without a completed handshake inside an earlier IDENTIFY [%s]" % o[:200]))
         if authed == "1" and not st["auth"]:
-            out.append(("hist-auth:" + cmd, idx, "connection holds authorizations without an earlier successful AUTH [%s]" % o[:200]))
+            out.append(("hist-auth", idx, "connection holds authorizations without an earlier successful AUTH [%s]" % o[:200]))
         if state != "init" and not st["sub"]:
-            out.append(("hist-sub:" + cmd, idx, "connection left the initial state without an accepted SUB [%s]" % o[:200]))
+            out.append(("hist-sub", idx, "connection left the initial state without an accepted SUB [%s]" % o[:200]))
         grew = prev_broker is not None and content_grew(prev_broker, broker)
         if grew and cfg[4] != "0" and not st["auth"]:
             out.append(("hist-effect-auth:" + cmd, idx, "%s changed the broker (%s -> %s) on a connection without an earlier successful AUTH" % (cmd, prev_broker[:150], broker[:150])))
@@ -159,11 +166,11 @@ class Stream:
         if not minimal:
             return [l for l in self.ops[start:idx + 1]]
         w = self.ops[idx].split()
-        cid = w[1] if w[0] in ("c", "cx", "x", "conn") else None
+        cid = w[1] if w[0] in CMDV + ("x", "conn") else None
         keep = [self.ops[start]]
         for l in self.ops[start + 1:idx + 1]:
             lw = l.split()
-            if cid is not None and lw[0] in ("c", "cx", "x", "conn") and lw[1] == cid:
+            if cid is not None and lw[0] in CMDV + ("x", "conn") and lw[1] == cid:
                 keep.append(l)
         return keep
 
@@ -216,7 +223,7 @@ def report(ctx, binp, env, st, label):
         body = "# C11 model/implementation disagreement on the last line\n#   impl:  %s\n#   model: %s\n%s\n" % (a, b, "\n".join(lines))
         if bad:
             w = st.ops[idx].split()
-            ctx.violation("corr:" + (w[4] if len(w) > 4 else w[0]), bad, body)
+            ctx.violation("corr:" + (w[5] if w[0] == "cb" else w[4] if len(w) > 4 else w[0]), bad, body)
         else:
             ctx.write_replay("corr_%s_%d.ops" % (label, idx), body)
     return broken
@@ -290,8 +297,8 @@ def run(ctx):
                 for o in st.ops:
                     ctx.count_case("corpus:" + o, nontrivial=not (o.startswith("conn ") or o.startswith("x ")))
                 corr_broken += report(ctx, binp, env, st, "corpus")
-            runs = [("^TestVerifGateAllowed$", "gateia", ctx.budget(20000, 200000)),
-                    ("^TestVerifGateCorr$", "gate", ctx.budget(15000, 80000))]
+            runs = [("^TestVerifGateAllowed$", "gateia", ctx.budget(12000, 200000)),
+                    ("^TestVerifGateCorr$", "gate", ctx.budget(6000, 80000))]
             for test, stream, n in runs:
                 st = Stream(ctx, binp, test, stream, dict(env, VERIF_N=n))
                 if st.hist:
